@@ -255,54 +255,47 @@ namespace
 
 	void SkipValueImpl(std::string_view inputData, size_t& pos)
 	{
-		if (pos < inputData.size())
+		// Iterative implementation (nesting depth of the input must not consume the native stack)
+		for (size_t remainingValues = 1; remainingValues != 0; --remainingValues)
 		{
-			const auto& byteCodeInfo = ByteCodeTable[static_cast<uint_fast8_t>(inputData[pos++])];
+			if (pos < inputData.size())
+			{
+				const auto& byteCodeInfo = ByteCodeTable[static_cast<uint_fast8_t>(inputData[pos++])];
 
-			size_t size = byteCodeInfo.DataSize;
-			uint32_t extSize = 0;
-			if (byteCodeInfo.FixedSeq)
-			{
-				extSize += byteCodeInfo.FixedSeq;
-			}
-			else if (byteCodeInfo.ExtSize)
-			{
-				size += byteCodeInfo.ExtSize;
-				extSize = ReadExtSize(byteCodeInfo.ExtSize, inputData, pos);
-			}
-
-			if (byteCodeInfo.Type == ValueType::String || byteCodeInfo.Type == ValueType::BinaryArray || byteCodeInfo.Type == ValueType::Ext)
-			{
-				size += extSize;
-				extSize = 0;
-			}
-
-			if (pos + size <= inputData.size())
-			{
-				pos += size;
-				if (extSize)
+				size_t size = byteCodeInfo.DataSize;
+				uint32_t extSize = 0;
+				if (byteCodeInfo.FixedSeq)
 				{
-					if (byteCodeInfo.Type == ValueType::Map)
-					{
-						for (uint32_t i = 0; i < extSize; ++i)
-						{
-							SkipValueImpl(inputData, pos);
-							SkipValueImpl(inputData, pos);
-						}
-					}
-					else if (byteCodeInfo.Type == ValueType::Array)
-					{
-						for (uint32_t i = 0; i < extSize; ++i)
-						{
-							SkipValueImpl(inputData, pos);
-						}
-					}
+					extSize += byteCodeInfo.FixedSeq;
 				}
-				return;
+				else if (byteCodeInfo.ExtSize)
+				{
+					size += byteCodeInfo.ExtSize;
+					extSize = ReadExtSize(byteCodeInfo.ExtSize, inputData, pos);
+				}
+
+				if (byteCodeInfo.Type == ValueType::String || byteCodeInfo.Type == ValueType::BinaryArray || byteCodeInfo.Type == ValueType::Ext)
+				{
+					size += extSize;
+					extSize = 0;
+				}
+
+				if (pos + size <= inputData.size())
+				{
+					pos += size;
+					// Nested values of maps and arrays are skipped by the same loop
+					if (byteCodeInfo.Type == ValueType::Map) {
+						remainingValues += static_cast<size_t>(extSize) * 2;
+					}
+					else if (byteCodeInfo.Type == ValueType::Array) {
+						remainingValues += extSize;
+					}
+					continue;
+				}
+				throw ParsingException("Unexpected end of input archive", 0, pos);
 			}
-			throw ParsingException("Unexpected end of input archive", 0, pos);
+			throw ParsingException("No more values to read", 0, pos);
 		}
-		throw ParsingException("No more values to read", 0, pos);
 	}
 
 	void HandleMismatchedTypesPolicy(std::string_view inputData, size_t& pos, ValueType actualType, MismatchedTypesPolicy mismatchedTypesPolicy)
@@ -866,52 +859,45 @@ namespace
 
 	void SkipValueImpl(Detail::CBinaryStreamReader& binaryStreamReader)
 	{
-		if (const auto byteCode = binaryStreamReader.ReadByte())
+		// Iterative implementation (nesting depth of the input must not consume the native stack)
+		for (size_t remainingValues = 1; remainingValues != 0; --remainingValues)
 		{
-			const auto& byteCodeInfo = ByteCodeTable[static_cast<uint_fast8_t>(*byteCode)];
+			if (const auto byteCode = binaryStreamReader.ReadByte())
+			{
+				const auto& byteCodeInfo = ByteCodeTable[static_cast<uint_fast8_t>(*byteCode)];
 
-			size_t size = byteCodeInfo.DataSize;
-			uint32_t extSize = 0;
-			if (byteCodeInfo.FixedSeq)
-			{
-				extSize += byteCodeInfo.FixedSeq;
-			}
-			else if (byteCodeInfo.ExtSize)
-			{
-				extSize = ReadExtSize(binaryStreamReader, byteCodeInfo.ExtSize);
-			}
-
-			if (byteCodeInfo.Type == ValueType::String || byteCodeInfo.Type == ValueType::BinaryArray || byteCodeInfo.Type == ValueType::Ext)
-			{
-				size += extSize;
-				extSize = 0;
-			}
-
-			if (size == 0 || binaryStreamReader.SetPosition(binaryStreamReader.GetPosition() + size))
-			{
-				if (extSize)
+				size_t size = byteCodeInfo.DataSize;
+				uint32_t extSize = 0;
+				if (byteCodeInfo.FixedSeq)
 				{
-					if (byteCodeInfo.Type == ValueType::Map)
-					{
-						for (uint32_t i = 0; i < extSize; ++i)
-						{
-							SkipValueImpl(binaryStreamReader);
-							SkipValueImpl(binaryStreamReader);
-						}
-					}
-					else if (byteCodeInfo.Type == ValueType::Array)
-					{
-						for (uint32_t i = 0; i < extSize; ++i)
-						{
-							SkipValueImpl(binaryStreamReader);
-						}
-					}
+					extSize += byteCodeInfo.FixedSeq;
 				}
-				return;
+				else if (byteCodeInfo.ExtSize)
+				{
+					extSize = ReadExtSize(binaryStreamReader, byteCodeInfo.ExtSize);
+				}
+
+				if (byteCodeInfo.Type == ValueType::String || byteCodeInfo.Type == ValueType::BinaryArray || byteCodeInfo.Type == ValueType::Ext)
+				{
+					size += extSize;
+					extSize = 0;
+				}
+
+				if (size == 0 || binaryStreamReader.SetPosition(binaryStreamReader.GetPosition() + size))
+				{
+					// Nested values of maps and arrays are skipped by the same loop
+					if (byteCodeInfo.Type == ValueType::Map) {
+						remainingValues += static_cast<size_t>(extSize) * 2;
+					}
+					else if (byteCodeInfo.Type == ValueType::Array) {
+						remainingValues += extSize;
+					}
+					continue;
+				}
+				throw ParsingException("Unexpected end of input archive", 0, binaryStreamReader.GetPosition());
 			}
-			throw ParsingException("Unexpected end of input archive", 0, binaryStreamReader.GetPosition());
+			throw ParsingException("No more values to read", 0, binaryStreamReader.GetPosition());
 		}
-		throw ParsingException("No more values to read", 0, binaryStreamReader.GetPosition());
 	}
 
 	void HandleMismatchedTypesPolicy(Detail::CBinaryStreamReader& binaryStreamReader, ValueType actualType, MismatchedTypesPolicy mismatchedTypesPolicy)
